@@ -364,6 +364,20 @@ def _only_looked_up(mod, name):
     return True
 
 
+IMMUTABLE_CTORS = {'tuple', 'frozenset', 'str', 'int', 'float', 'bool', 'bytes', 'object'}
+
+
+def _shared_default(d):
+    '''a parameter default is evaluated ONCE, when the function is defined: a container display or an object constructed there (an id
+    generator, a set ...) is one object shared by every call that leaves the parameter out, hence by every metamodel'''
+    for n in ast.walk(d):
+        if isinstance(n, (ast.List, ast.Dict, ast.Set, ast.ListComp, ast.DictComp, ast.SetComp, ast.GeneratorExp)):
+            return True
+        if isinstance(n, ast.Call) and (dotted(n.func) or '?') not in IMMUTABLE_CTORS:
+            return True
+    return False
+
+
 def fresh(ctx):
     repo = ctx.repo
     r = ctx.rule('C18-FRESH', 'nothing built is remembered by the loader or shared between objects', floor=10, oracle='non-interference')
@@ -389,13 +403,13 @@ def fresh(ctx):
             for m in c.body:
                 if isinstance(m, ast.FunctionDef):
                     for d in m.args.defaults + [x for x in m.args.kw_defaults if x is not None]:
-                        mutable = isinstance(d, (ast.List, ast.Dict, ast.Set)) or (isinstance(d, ast.Call) and dotted(d.func) in MUTABLE_CTORS)
+                        mutable = _shared_default(d)
                         if mutable:
                             r.violation('%s.%s has a mutable default argument `%s` shared between calls' % (c.name, m.name, src(d)), d,
                                         construct='%s:%s.%s' % (modname, c.name, m.name), key='mutable-default')
         for fn in repo.functions(modname):
-            for d in fn.args.defaults:
-                if isinstance(d, (ast.List, ast.Dict, ast.Set)):
+            for d in fn.args.defaults + [x for x in fn.args.kw_defaults if x is not None]:
+                if _shared_default(d):
                     r.violation('%s has a mutable default argument' % fn.name, d, construct='%s:%s' % (modname, fn.name), key='mutable-default')
         # module-level mutable state
         for st in repo.module(modname).tree.body:
